@@ -13,3 +13,12 @@ func VerifLimiterKeys(s *LimiterStore) []uint64 {
 	}
 	return out
 }
+
+// VerifLimiterHas reports whether key is stored (under the read lock,
+// without touching lastSeen). Accessor only.
+func VerifLimiterHas(s *LimiterStore, key uint64) bool {
+	s.mu.RLock()
+	defer s.mu.RUnlock()
+	_, ok := s.limiters[key]
+	return ok
+}
